@@ -346,8 +346,17 @@ fn take_impl<IndexType: ArrowPrimitiveType>(
         DataType::Union(fields, UnionMode::Dense) => {
             let values = values.as_any().downcast_ref::<UnionArray>().unwrap();
 
-            let type_ids = <PrimitiveArray<Int8Type>>::try_new(take_native(values.type_ids(), indices), None)?;
-            let offsets = <PrimitiveArray<Int32Type>>::try_new(take_native(values.offsets().unwrap(), indices), None)?;
+            let index_nulls = indices.nulls().filter(|n| n.null_count() > 0);
+            let mut type_ids = take_native(values.type_ids(), indices);
+            if let (Some(nulls), Some((null_type_id, _))) = (index_nulls, fields.iter().next()) {
+                // A union has no validity of its own: a null index becomes a null slot of the first child
+                let mut ids = type_ids.to_vec();
+                (0..ids.len()).filter(|i| nulls.is_null(*i)).for_each(|i| ids[i] = null_type_id);
+                type_ids = ids.into();
+            }
+            let type_ids = <PrimitiveArray<Int8Type>>::try_new(type_ids, None)?;
+            // null indices stay null in the child offsets, so that the children take a null for them
+            let offsets = <PrimitiveArray<Int32Type>>::try_new(take_native(values.offsets().unwrap(), indices), index_nulls.cloned())?;
 
             let children = fields.iter()
                 .map(|(field_type_id, _)| {
